@@ -513,6 +513,11 @@ func (c *Ctx) term(v ssa.Value) *Term {
 				}
 			}
 		}
+		// a local copy written once whose address is only handed to read-only callees (the receiver
+		// of `allocatable.Cpu()` after `allocatable := node.Status.Allocatable`): &(the copied value)
+		if src := localCopySource(x); src != nil {
+			return &Term{Kind: "unop", Name: "&", Args: []*Term{c.Term(src)}}
+		}
 		return &Term{Kind: "alloc", Name: "&" + x.Comment + "#" + c.instrID(x), Val: x}
 	case *ssa.Phi:
 		return &Term{Kind: "phi", Name: x.Comment + "#" + c.instrID(x), Val: x, C: c}
@@ -1165,6 +1170,49 @@ func (c *Ctx) isDef(in ssa.Instruction, a *ssa.Alloc, path []int) bool {
 // ---- calls -------------------------------------------------------------------------------
 
 // pureExternal: library callees whose result is a function of their arguments only.
+// localCopySource: the value a local was initialised with when the local is written exactly once,
+// by a store in its own block (`x := v`), and afterwards only loaded or handed to read-only
+// callees of the API types (pure accessors of v1 / resource / meta types).
+func localCopySource(x *ssa.Alloc) ssa.Value {
+	if x.Referrers() == nil {
+		return nil
+	}
+	var src ssa.Value
+	n, handed := 0, 0
+	for _, r := range *x.Referrers() {
+		switch y := r.(type) {
+		case *ssa.DebugRef:
+		case *ssa.UnOp:
+			if y.Op != token.MUL {
+				return nil
+			}
+		case *ssa.Store:
+			if y.Addr != ssa.Value(x) || y.Block() != x.Block() {
+				return nil
+			}
+			n++
+			src = y.Val
+		case *ssa.Call:
+			g := y.Common().StaticCallee()
+			if g == nil || !pureExternal(g) || !strings.HasPrefix(pkgPathOfFn(g), "k8s.io/") {
+				return nil
+			}
+			handed++
+		default:
+			return nil
+		}
+	}
+	if n != 1 || handed == 0 {
+		return nil
+	}
+	// the source must itself be a stable read (a field / element path), not another local's load
+	switch src.(type) {
+	case *ssa.UnOp:
+		return src
+	}
+	return nil
+}
+
 func pureExternal(f *ssa.Function) bool {
 	path := pkgPathOfFn(f)
 	name := f.Name()
@@ -1608,6 +1656,19 @@ func termFormula(t *Term) *Formula {
 		}
 	case "boolf":
 		return t.formula()
+	case "binop":
+		// a comparison kept as a value (stored in a structure field, returned inside a literal)
+		if len(t.Args) == 2 {
+			for _, op := range []token.Token{token.LSS, token.GTR, token.LEQ, token.GEQ, token.EQL, token.NEQ} {
+				if t.Name == op.String() {
+					return cmpFormula(op, t.Args[0], t.Args[1])
+				}
+			}
+		}
+	case "unop":
+		if t.Name == "!" && len(t.Args) == 1 {
+			return Not(termFormula(t.Args[0]))
+		}
 	case "call":
 		// a boolean call passed on as an argument (hoisted out of a loop, handed to a helper): its
 		// propositional reading is that of the call where it was made
